@@ -10,23 +10,23 @@ from xv import props  # noqa: E402
 
 TECH = {
     "C01": "static analysis: CFG dominance / control-dependence rules per reclamation scheme, guard typestate, origin analysis of dereferenced pointers in container code + memory-order contract table",
-    "C02": "static analysis: K2/K4 path rules (deleter-before-retire, hand-over at thread exit, push re-link), memory-order contract",
+    "C02": "static analysis: K2/K4 path rules (deleter-before-retire, hand-over and control-block release at thread exit, push re-link), finite execution of the list-walking delete / hand-over routines on small lists, slot-count balance, memory-order contract",
     "C03": "static analysis: constant-evaluated memory orders per CFG event vs frozen contract table + live comment graph",
     "C04": "static analysis: control-dependence and order rules on queue CFGs, finite evaluation of the SCQ tail CAS, guard-protected CAS expectations (ABA), memory-order contract",
-    "C05": "static analysis: cell-protocol path rules, finite evaluation of sequence arithmetic, SCQ settle-slot rule, memory-order contract",
+    "C05": "static analysis: cell-protocol path rules, finite evaluation of sequence arithmetic and of the pure capacity / index helpers (next_power_of_two, remap_index bijection), SCQ settle-slot rule, memory-order contract",
     "C06": "static analysis: tag-expression discipline over all tagged CAS sites, guarded-action rules, validated (head, tail) snapshot rule, exhaustive finite evaluation of the region predicates, constructor size check vs field width",
-    "C07": "static analysis: ownership path rules (move-out/destroy pairing, release-after-store, destructor bounds), use-after-move dataflow",
+    "C07": "static analysis: ownership path rules (move-out/destroy pairing, release-after-store, destructor bounds), finite execution of the queue destructors on small node lists / rings, use-after-move dataflow",
     "C08": "static analysis: exhaustive finite evaluation of the ordering predicate, erase/insert protocol path rules, guard-protected CAS expectations (ABA), use-after-move dataflow",
     "C09": "static analysis: exhaustive finite evaluation of the re-scan predicate, iterator guard/paired-field rules",
     "C10": "static analysis: forward must-dataflow (reader validation), marker/version protocol rules, lock pairing, grow ordering",
     "C11": "static analysis: iterator lock typestate and cached-state coherence rules over CFGs",
-    "C12": "static analysis: path rules for push/pop/steal, mask kind discipline, exhaustive finite evaluation of grow() index arithmetic",
+    "C12": "static analysis: path rules for push/pop/steal (success only via the won CAS, failure only via empty / lost CAS), mask kind discipline, exhaustive finite evaluation of grow() index arithmetic",
     "C13": "static analysis: finite reader/writer table agreement extracted from the CFGs, order rules, memory-order contract",
     "C14": "static analysis: per-instantiation copy coverage from type sizes, protocol order rules, finite evaluation of slot indices",
     "C15": "static analysis: abstract interpretation of -O1 LLVM IR over a bit-provenance domain (all mark widths), order pass-through",
     "C16": "static analysis: wait-construct detection (quiet CFG cycles whose conditions are invariant under solo execution) + call-graph reachability from documented lock-free operations, finite execution of the weak bounded-queue loop round",
     "C17": "static analysis: adoption-before-allocation, (re)initialisation order, activity-conjunct and thread-exit path rules",
-    "C18": "static analysis: slot allocation/release path rules, exhaustion-throws rule, exception-safety order rule (alloc before release)",
+    "C18": "static analysis: slot allocation/release path rules, exhaustion-throws rule, noexcept functions never reach the exhaustion throw (call-graph reachability), exception-safety order rule (alloc before release)",
 }
 
 
